@@ -59,6 +59,7 @@ public:                      // was private - needed for derived class SBMLtoXML
 
     void taTempl(const template_t& templ);
     void location(const location_t& loc);
+    void branchpoint(const branchpoint_t& bp, size_t locations);
     void init(const template_t& templ);
     void name(const location_t& state, int x, int y);
     void writeStateAttributes(const location_t& state, int x, int y);
